@@ -64,8 +64,12 @@ class PersistingDict(MutableMapping[str, VT]):
 
     def _save(self):
         if self._file_name:
-            with open(self._file_name, 'w') as json_file:
+            # Write a new file and rename it over the old one, so that an interrupted write
+            # leaves either the old or the new content, never a truncated file
+            temp_name: str = self._file_name + '.tmp'
+            with open(temp_name, 'w') as json_file:
                 json_file.write(json_encode(self._data))
+            os.replace(temp_name, self._file_name)
 
     def __contains__(self, key: str) -> bool:
         return key in self._data
